@@ -67,6 +67,13 @@ impl<T> Timer<T> {
         self.queue.remove(&timeout).is_some()
     }
 
+    /// Number of scheduled timeouts whose value satisfies the predicate (verification hook).
+    #[cfg(btdht_verif)]
+    pub fn count_where(&self, f: impl Fn(&T) -> bool) -> usize {
+        self.current.iter().filter(|c| f(&c.value)).count()
+            + self.queue.values().filter(|v| f(v)).count()
+    }
+
     fn next_id(&mut self) -> u64 {
         let id = self.next_id;
         self.next_id = self.next_id.wrapping_add(1);
